@@ -49,7 +49,8 @@ def paren_sets(n, maxdepth=2, full=True):
 def tokens_for(n, parens, pct=(), ops=None, allowed='+-*/^'):
     toks = []
     for i in range(n):
-        if i > 0: toks.append(('op', ops[i - 1] if ops else None, allowed.replace('^', '') if i in pct else allowed))   # N% is not an integer: not an exponent
+        al = allowed[i - 1] if isinstance(allowed, (list, tuple)) and i > 0 else allowed
+        if i > 0: toks.append(('op', ops[i - 1] if ops else None, al.replace('^', '') if i in pct else al))   # N% is not an integer: not an exponent
         for r in sorted([r for r in parens if r[0] == i], key=lambda r: -r[1]): toks.append(('lp',))
         toks.append(('leaf', i))
         if i in pct: toks.append(('pct',))
